@@ -121,8 +121,8 @@ type c27TP struct {
 }
 
 type c27Script struct {
-	Down  bool           // nothing listens on the broker's address (connection refused)
-	Behav []c27Behav     // by index of the request frame seen by this broker
+	Down  bool               // nothing listens on the broker's address (connection refused)
+	Behav []c27Behav         // by index of the request frame seen by this broker
 	Codes map[string][]int16 // "topic/part" -> answer for the n-th sighting
 }
 
@@ -154,7 +154,7 @@ type c27Case struct {
 }
 
 var c27Topics = []string{"a", "b", "c"} // known to cluster metadata
-const c27UnknownTopic = "ghost"          // not in cluster metadata (its id cannot be resolved)
+const c27UnknownTopic = "ghost"         // not in cluster metadata (its id cannot be resolved)
 
 func c27TopicID(name string) [16]byte { return metadata.TopicIDForName(name) }
 
